@@ -46,6 +46,10 @@ func (Engine) Generate(cfg simkit.RunConfig) (any, bool) {
 		return genFaults(cfg, "M"), true
 	case "leftover":
 		return genLeftover(cfg, "M"), true
+	case "reads":
+		return genReads(cfg, "M"), true
+	case "ryw":
+		return genRYW(cfg, "M"), true
 	}
 	panic("unknown mode " + cfg.Mode)
 }
@@ -85,7 +89,23 @@ func (Engine) Execute(t *testing.T, cfg simkit.RunConfig, scenario any) *simkit.
 				w.runTxn(h.Prog, h)
 			}()
 		}
+		var rwg sync.WaitGroup
+		var rr *rand.Rand
+		if sc.Reads != nil {
+			rr = rand.New(rand.NewSource(sc.Reads.Seed))
+			rwg.Add(1)
+			go func() {
+				defer rwg.Done()
+				time.Sleep(25 * time.Millisecond)
+				w.runReads(rand.New(rand.NewSource(sc.Reads.Seed+1)), sc.Clients, "early", sc.Reads.Early, sc.Reads)
+			}()
+		}
 		wg.Wait()
+		rwg.Wait()
+		if sc.Reads != nil {
+			// the writers ended (or died): their leftover locks are met by these reads
+			w.runReads(rr, sc.Clients, "late", sc.Reads.Late, sc.Reads)
+		}
 		if cfg.Mode == "leftover" {
 			// C06: let the clients' background work drain WITHOUT letting any lock expire
 			// (TTLs are 10 simulated minutes in this mode), then look at the store.
@@ -102,6 +122,9 @@ func (Engine) Execute(t *testing.T, cfg simkit.RunConfig, scenario any) *simkit.
 		// resolve whatever is left.
 		s.Sleep(ttlOf(sc))
 		janitorOK = w.janitor(12)
+		if sc.Reads != nil && janitorOK {
+			w.runReads(rr, sc.Clients, "final", sc.Reads.Final, sc.Reads)
+		}
 	})
 	truth := simkit.DumpTruth(w.dumper, w.allKeys)
 	trace := w.Net.Trace()
@@ -120,6 +143,20 @@ func (Engine) Execute(t *testing.T, cfg simkit.RunConfig, scenario any) *simkit.
 	for _, h := range w.Hist {
 		if h.Done && h.StartTS != 0 {
 			done++
+		}
+	}
+	for _, h := range w.Hist {
+		if h.EndKind == "commit" {
+			res.Stats["probe.commit."+probeClass(h.CommitErr)]++
+		} else if h.EndKind == "rollback" {
+			res.Stats["probe.rollback"]++
+		}
+		for _, r := range h.Ops {
+			if r.Op.Kind == "lock" {
+				res.Stats["probe.lockkeys."+probeClass(r.Err)]++
+			} else if r.Err != "" {
+				res.Stats["probe.read-error"]++
+			}
 		}
 	}
 	planned := len(sc.Net.Plan)
@@ -153,6 +190,10 @@ func (Engine) Execute(t *testing.T, cfg simkit.RunConfig, scenario any) *simkit.
 			}
 			c.checkC01()
 			c.checkC03()
+			if sc.Reads != nil {
+				c.checkC05(w.Reads, ttlOf(sc))
+				res.Stats["c05.reads"] = len(w.Reads)
+			}
 			vs = append(vs, c.out...)
 		}
 		m := &monitor{trace: trace, tso: tso, hist: w.Hist}
@@ -190,6 +231,9 @@ func filterProp(vs []simkit.Violation, prop string) []simkit.Violation {
 	for _, v := range vs {
 		if v.Property == "C01" && shared[prop] {
 			v.Property = prop
+		}
+		if prop == "C07" && v.Property == "C01" && (v.Class == "read-mismatch" || v.Class == "scan-mismatch") {
+			v.Property = "C07" // the view of a transaction = snapshot overlaid with its buffer
 		}
 		if v.Property == prop || prop == "" {
 			out = append(out, v)
@@ -317,4 +361,26 @@ func firstWords(s string, n int) string {
 		f = f[:n]
 	}
 	return strings.Join(f, " ")
+}
+
+func probeClass(e string) string {
+	switch {
+	case e == "":
+		return "ok"
+	case strings.HasPrefix(e, "other:"):
+		switch {
+		case strings.Contains(e, "deadlock"):
+			return "deadlock"
+		case strings.Contains(e, "no wait"):
+			return "nowait-fail"
+		case strings.Contains(e, "lock wait timeout"):
+			return "lock-wait-timeout"
+		case strings.Contains(e, "cut off"):
+			return "cut"
+		case strings.Contains(e, "not found"):
+			return "txn-lock-not-found"
+		}
+		return "other"
+	}
+	return e
 }
